@@ -171,8 +171,25 @@ def model_request(rows):
 
 def rows_to_frame(rows):
     import pandas as pd
+    # optional "label" of a row = its row label in the frame (default: its position).  The file is read in row
+    # order whatever the labels are; `split_delay_tags` must look the onset of a Delay group's row up by label.
     return pd.DataFrame({"onset": [str(r["time"] / 8) for r in rows], "duration": ["n/a"] * len(rows),
-                         "HED": [row_text(r) for r in rows]})
+                         "HED": [row_text(r) for r in rows]}, index=[r.get("label", k) for k, r in enumerate(rows)])
+
+
+def with_labels(rows, labels):
+    return [dict(r, label=l) for r, l in zip(rows, labels)]
+
+
+def label_variants(files, limit):
+    """every assignment of the labels 0..n-1 (all permutations, <= 4 rows) to files that carry Delay groups"""
+    out = []
+    for f in files:
+        if 2 <= len(f) <= 4 and any(r["delayed"] for r in f) and len(out) < limit:
+            for perm in itertools.permutations(range(len(f))):
+                if list(perm) != list(range(len(f))):
+                    out.append(with_labels(f, perm))
+    return out
 
 
 def split_top(s):
@@ -518,6 +535,8 @@ def check_file(ctx, rows, m, schema, dd, validate=False):
         ctx.count("has-merged-time-point")
     if any(r["delayed"] for r in rows):
         ctx.count("has-delay-groups")
+        if any("label" in r for r in rows):
+            ctx.count("row-labels-differ-from-positions-with-delay-groups")
     if any(obs["objs"][0][i] != obs["objs"][1][i] for i in range(n)):
         ctx.count("type-filter-changes-an-entry")
     if any(obs["objs"][0][i] != obs["objs"][3][i] and obs["objs"][3][i] for i in range(n)):
@@ -712,6 +731,20 @@ def run(ctx):
     nfull, nsmall = (2, 3) if ctx.quick() else (3, 4)
     files = [f for f in CORPUS] + list(exhaustive(nfull, nsmall))
     ctx.extra["exhaustive_rows"] = {"full_alphabet": nfull, "reduced_alphabet": nsmall, "files": len(files)}
+    # row labels that are not the positions (a frame that was filtered / re-sorted / re-indexed before): all label
+    # permutations for some small files with Delay groups, one non-trivial labelling for every other such file
+    perm_src = [f for f in files if len(f) == 3 and sum(len(r["delayed"]) for r in f) >= 2][:12] + \
+               [f for f in files if len(f) == 2 and any(r["delayed"] for r in f)][:20] + [CORPUS[1], CORPUS[2]]
+    extra = label_variants(perm_src, 400 if ctx.quick() else 4000)
+    k3 = 0
+    for j, f in enumerate(files):
+        if len(f) >= 2 and any(r["delayed"] for r in f) and j % 2 == 0:
+            perms = [p for p in itertools.permutations(range(len(f))) if list(p) != list(range(len(f)))]
+            lab = perms[k3 % len(perms)] if k3 % 3 else [10 * (x + 1) for x in range(len(f))]
+            files[j] = with_labels(f, lab)
+            k3 += 1
+    files += extra
+    ctx.extra["relabelled_files"] = {"all_permutations": len(extra), "one_labelling": k3}
     _run_files(ctx, files, schema, dd, validate_every=25)
     nrand = 2500 if ctx.quick() else 15000
     rnd = []
@@ -735,6 +768,13 @@ def run(ctx):
             k2 = ctx.rng.randrange(len(rows))
             rows[k2]["items"].append(ctx.rng.choice([["onsetdur", "C/8", 8, 900 + k2],
                                                      ["durbare", ctx.rng.choice([4, 8, 16]), 950 + k2]]))
+        if ctx.rng.random() < 0.4 and len(rows) >= 2:
+            lab = list(range(len(rows)))
+            if ctx.rng.random() < 0.7:
+                ctx.rng.shuffle(lab)
+            if ctx.rng.random() < 0.4:
+                lab = [7 * x + 3 for x in lab]
+            rows = with_labels(rows, lab)
         rnd.append(rows)
     _run_files(ctx, rnd, schema, dd, validate_every=8)
 
